@@ -94,7 +94,9 @@ def main():
             return finish(res, src, keep=False)
         # demo with the patch
         run = open(os.path.join(src, "demo", "RUN.txt")).read().strip().split("\n")[0]
+        rawrun = run
         run = run.replace("<demo>", os.path.join(src, "demo"))
+        run = re.sub(r"(^|\s)demo/", lambda m: m.group(1) + os.path.join(src, "demo") + "/", run)
         run = re.sub(r"\s+#.*$", "", run)
         run = re.sub(r"\s+\(env:.*\)\s*$", "", run)
         demo_files = []
@@ -111,6 +113,13 @@ def main():
                 if os.sep in rel:
                     dst = os.path.join(wt, rel)
                 else:
+                    m = re.search(re.escape(rel) + r"\s+(?:into\s+)?\.?/?([\w/\-\.]+?)/?(?:\s|$|\))", rawrun)
+                    if m and os.path.isdir(os.path.join(wt, m.group(1))):
+                        dst = os.path.join(wt, m.group(1), rel)
+                        os.makedirs(os.path.dirname(dst), exist_ok=True)
+                        shutil.copy(os.path.join(src, "demo", rel), dst)
+                        placed.append(dst)
+                        continue
                     m = re.search(r"\./([\w/\-\.]+)", run)
                     pkg = m.group(1).rstrip("/") if m else "."
                     if pkg.endswith("..."):
